@@ -1,5 +1,6 @@
 SPECIFICATION Spec
 CONSTANT MaxPath = 3
 CONSTANT Slice = 12
+CONSTANT Real = FALSE
 INVARIANT Emit
 INVARIANT Laws
